@@ -217,3 +217,50 @@ def check_scope_stack_ownership(prog: Program, res: Result, rule: str) -> None:
                 else:
                     res.fail(rule, file=mod.relpath, line=c.lineno, qualname=fi.qualname if fi else "", construct=c, message="the render scope stack is pushed/popped by hand outside RenderContext.extend: an early exit (break, error, abandoned generator) leaves the scope pushed and block-bound names leak", what=what)
     res.floor(rule, "scope push/pop sites", n_sp, 2)
+
+
+def check_newline_transparency(prog: Program, res: Result, rule: str) -> None:
+    """Output buffers never translate line endings: LimitedStringIO forwards newline='\\n' (StringIO()'s own default) and no
+    buffer construction in liquid2 passes another newline mode."""
+    lim = prog.cls("liquid2.output.LimitedStringIO")
+    init = lim.methods.get("__init__")
+    if init is None:
+        res.ok(rule, f"{lim.file}:{lim.node.lineno} LimitedStringIO", "no __init__ override", "inherits StringIO defaults")
+    else:
+        a = init.node.args
+        defaults = dict(zip([p.arg for p in a.args][len(a.args) - len(a.defaults) :], a.defaults))
+        sc = [c for c in ast.walk(init.node) if isinstance(c, ast.Call) and isinstance(c.func, ast.Attribute) and c.func.attr == "__init__" and norm(c.func.value) == "super()"]
+        what = "super().__init__ receives newline='\\n' by default"
+        ok = False
+        why = "no super().__init__ call"
+        for c in sc:
+            nl = c.args[1] if len(c.args) > 1 else next((k.value for k in c.keywords if k.arg == "newline"), None)
+            if nl is None:
+                ok, why = True, "newline not forwarded: StringIO's own default applies"
+            elif isinstance(nl, ast.Constant):
+                ok, why = nl.value == "\n", f"newline={nl.value!r}"
+            elif isinstance(nl, ast.Name) and nl.id in defaults:
+                dv = defaults[nl.id]
+                ok = isinstance(dv, ast.Constant) and dv.value == "\n"
+                why = f"parameter {nl.id} defaults to {norm(dv)}"
+            else:
+                why = f"newline={norm(nl)}"
+        if ok:
+            res.ok(rule, f"{init.file}:{init.node.lineno} LimitedStringIO.__init__", what, why)
+        else:
+            res.fail(rule, file=init.file, line=init.node.lineno, qualname="LimitedStringIO.__init__", construct=f"newline forwarded to StringIO: {why}", message=f"configuring an output limit changes write semantics: {why} turns on universal-newline translation (CR/CRLF rewritten to LF); StringIO() itself uses newline='\\n'", what=what)
+    n_ctor = 0
+    for mod in prog.modules.values():
+        for c in ast.walk(mod.tree):
+            if not (isinstance(c, ast.Call) and (dotted(c.func) or "").split(".")[-1] in ("StringIO", "LimitedStringIO")):
+                continue
+            n_ctor += 1
+            pos = 2 if (dotted(c.func) or "").endswith("LimitedStringIO") else 1
+            nl = c.args[pos] if len(c.args) > pos else next((k.value for k in c.keywords if k.arg == "newline"), None)
+            q = prog.qual_at(mod, c)
+            what = f"`{norm(c, 60)}` keeps line endings as written"
+            if nl is None or (isinstance(nl, ast.Constant) and nl.value in ("\n", "")):
+                res.ok(rule, f"{mod.relpath}:{c.lineno} {q}", what, "no newline argument" if nl is None else f"newline={nl.value!r}")
+            else:
+                res.fail(rule, file=mod.relpath, line=c.lineno, qualname=q, construct=f"{norm(c, 60)} with newline={norm(nl)}", message=f"the output buffer is built with newline={norm(nl)}: CR / CRLF written by the template are rewritten", what=what)
+    res.floor(rule, "output buffer constructions", n_ctor, 3)
